@@ -161,7 +161,7 @@ Aux:
 			case AmpAllowOtherKeys:
 				// ignore
 			default:
-				if !ss.Bound(Symbol(ad.Name)) {
+				if !ss.boundHere(ad.Name) {
 					ss.Let(Symbol(ad.Name), ad.Default)
 				}
 			}
@@ -174,7 +174,7 @@ Aux:
 			case AmpAllowOtherKeys:
 				// ignore
 			default:
-				if !ss.Bound(Symbol(ad.Name)) {
+				if !ss.boundHere(ad.Name) {
 					ss.Let(Symbol(ad.Name), ad.Default)
 				}
 			}
@@ -182,7 +182,7 @@ Aux:
 			asym := Symbol(ad.Name)
 			if AmpAux == asym {
 				mode = auxMode
-			} else if !ss.Bound(asym) {
+			} else if !ss.boundHere(ad.Name) {
 				ss.Let(asym, ad.Default)
 			}
 		case auxMode:
@@ -195,6 +195,17 @@ Aux:
 		}
 	}
 	return lam.BoundCall(ss, depth)
+}
+
+// boundHere returns true if the name has a binding in this scope itself, the
+// scopes it was created from and the global variables are not considered. A
+// parameter that did not get an argument is unbound in this sense even if a
+// variable with the same name exists outside the function.
+func (s *Scope) boundHere(name string) (has bool) {
+	s.locker.Lock()
+	_, has = s.Vars[strings.ToLower(name)]
+	s.locker.Unlock()
+	return
 }
 
 // BoundCall the the function with the bindings provided.
